@@ -133,7 +133,8 @@ class Effects:
         ps = set(init.params[1:])
         direct = [s for s in walk_no_nested(init.node) if isinstance(s, ast.Assign)
                   and isinstance(s.value, ast.Name) and s.value.id in ps]
-        copies = [s for s in walk_no_nested(init.node) if isinstance(s, ast.Expr) and "copy()" in norm(s)]
+        copies = [c_ for c_ in ast.walk(init.node) if isinstance(c_, ast.Call) and isinstance(c_.func, ast.Attribute)
+                  and c_.func.attr in ("copy", "deep_copy", "deepcopy")]
         return bool(direct) and not copies
 
     # ------------------------------------------------------------------ provenance
@@ -422,7 +423,18 @@ class FuncProv:
             if not defs:
                 if e.id in f.params:
                     return {("param", e.id)}
-                # comprehension variables
+                # comprehension variables: bound by the innermost enclosing comprehension that has the name as target
+                if not hasattr(self, "_pm"):
+                    from .cfg import parents_map as _pmf
+                    self._pm = _pmf(f.node)
+                cur = e
+                while id(cur) in self._pm:
+                    cur = self._pm[id(cur)]
+                    if isinstance(cur, (ast.ListComp, ast.SetComp, ast.GeneratorExp, ast.DictComp)):
+                        for n in cur.generators:
+                            if any(isinstance(x, ast.Name) and x.id == e.id for x in ast.walk(n.target)):
+                                return self._elements_target(n.target, n.iter, e.id, _stack) if hasattr(self, "_elements_target") \
+                                    else self._elements(n.iter, _stack)
                 for n in walk_no_nested(f.node):
                     if isinstance(n, ast.comprehension) and any(isinstance(x, ast.Name) and x.id == e.id for x in ast.walk(n.target)):
                         return self._elements(n.iter, _stack)
@@ -589,6 +601,15 @@ class FuncProv:
             return out
         if isinstance(it, ast.Call) and isinstance(it.func, ast.Attribute) and it.func.attr in ("items", "values", "keys"):
             return self.of(it.func.value, _stack)
+        if isinstance(it, ast.Call) and norm(it.func) in ("chain.from_iterable", "itertools.chain.from_iterable") and it.args:
+            # the elements of the elements: same roots as the elements (containers are as fresh as what they hold)
+            inner = self._elements(it.args[0], _stack)
+            return inner
+        if isinstance(it, ast.Call) and norm(it.func) in ("chain", "itertools.chain"):
+            out = set()
+            for a in it.args:
+                out |= self._elements(a, _stack)
+            return out
         bt = self.E.R.expr_type(it, f, env)
         if bt and bt[0] == "cls":
             im = self.E.R.find_member(bt[1], "__iter__", "method")
@@ -628,6 +649,10 @@ class FuncProv:
             return self.of(c.args[0], _stack)
         if nm == "__new__":
             return {("fresh", "__new__")}
+        if full in ("chain.from_iterable", "itertools.chain.from_iterable", "chain", "itertools.chain", "iter", "enumerate", "zip",
+                    "reversed", "islice", "itertools.islice", "islice_extended"):
+            # a lazy view over its arguments' elements: fresh itself, but what it yields is what they hold
+            return {("fresh", full)} | {r for r in self._elements(c, _stack) if r[0] != "fresh"}
         cs, status = self.E.R.callees(c, f)
         if cs:
             out: Set[Tuple] = set()
